@@ -422,6 +422,21 @@ def compare(c, df, colname, exp, combo, what, rel=1e-12, cat=False, has_null=Fal
             c.bad("wrong_dtype", "%s: dtype %s, schema implies %s%d" % (what, s.dtype, kind, size * 8))
 
 
+def _as_index(c, data, colname, exp, combo, what):
+    import io
+    import fastparquet
+    c.ctx = dict(c.ctx, as_index=True)
+    try:
+        df = fastparquet.ParquetFile(io.BytesIO(data)).to_pandas(index=colname)
+    except Exception as e:
+        c.bad("read_raised", "%s: %s: %s" % (what, type(e).__name__, str(e)[:150]), exc=type(e).__name__)
+        return
+    if list(df.columns) or list(df.index.names) != [colname]:
+        c.bad("wrong_columns", "%s: columns %r, index %r" % (what, list(df.columns), list(df.index.names)))
+        return
+    compare(c, df.index.to_frame(index=False), colname, exp, combo, what)
+
+
 def _selfcheck(c, data, colname, rows, what):
     """specpq reads back what specpq wrote (binds the model to itself)"""
     from mc.specpq import file as F
@@ -693,6 +708,10 @@ def run_D2(c, p):
                     if df is None:
                         continue
                     compare(c, df, "c", exp, combo, what, has_null=any(mask))
+                    if nrg == 1 and defprog == "auto" and len(split) <= 2:
+                        # the same column asked for as the row index (non-default index=): the values, NULLs
+                        # included, are those of the column
+                        _as_index(c, data, "c", exp, combo, what + " index='c'")
 
 
 def run_D3(c, p):
